@@ -605,4 +605,59 @@ def rule_header_written(P):
     return R
 
 
-RULES = [rule_tokens, rule_terminal_io, rule_sections, rule_keywords, rule_code_chars, rule_domain_order]
+def rule_format_switch(P):
+    """real terminals are written with put(x, 0, 10, 'e'): scientific notation keeps the leading digits of a small value, fixed notation prints
+    0.0000000000.  FILE_output and ostream_output each map the format letter through a switch; every case must end in exactly one notation and the two
+    siblings must agree.  Seed C14d removed the `break` after case 'e' of the stream writer: 'e' then falls through to `fixed`"""
+    R = RuleResult("codec.format-switch", "FILE_output::put(double,…) and ostream_output::put(double,…): each case of the format-letter switch reaches exactly one notation ('e' scientific, 'f' fixed, default general) and both writers have the same cases")
+    want = {"e": "scientific", "f": "fixed", "default": "general"}
+    seen_labels = {}
+    for cls in ("FILE_output", "ostream_output"):
+        fs = [f for f in P.find(M + cls + "::put") if f.get("cfg") and "double" in f["sig"]]
+        if not fs:
+            raise AnalysisBroken("codec.format-switch: %s::put(double, …) not found" % cls)
+        f = fs[0]
+        g = Graph(f)
+        R.functions.add(f["inst"])
+        sw = switch_cases(g)
+        if not sw:
+            raise AnalysisBroken("codec.format-switch: %s::put(double, …) has no format switch any more" % cls)
+        cases = sw[0]
+        seen_labels[cls] = set()
+        for lab, ids in sorted(cases.items()):
+            key = _char(lab) or ("default" if "default" in lab else lab)
+            seen_labels[cls].add(key)
+            kinds = set()
+            for i in ids:
+                k = g.nodes[i]
+                if k.kind != "call":
+                    continue
+                t = " ".join(k.ev.get("args") or [])
+                if k.ev["q"].endswith("::setf") or "setf" in k.ev["q"]:
+                    if "scientific" in t:
+                        kinds.add("scientific")
+                    elif "fixed" in t:
+                        kinds.add("fixed")
+                    elif "fmtflags(0)" in re.sub(r"\s+", "", t):
+                        kinds.add("general")
+                elif k.ev["q"].endswith("fprintf"):
+                    m = re.search(r'%\*\.\*([efg])', t)
+                    if m:
+                        kinds.add({"e": "scientific", "f": "fixed", "g": "general"}[m.group(1)])
+            R.paths += 1
+            iid = "%s::put: case %s selects %s" % (cls, key, want.get(key, "?"))
+            if key in want and kinds == {want[key]}:
+                R.ok(iid, where(f))
+            else:
+                R.fail(iid, where(f), Finding(R.rule, f["file"], f["q"], "format:" + key, "case %s of the format switch reaches %s, expected exactly {%s}: a real terminal written through this writer is printed in another notation than the reader and the sibling writer assume" % (key, sorted(kinds) or "no notation", want.get(key, "?")), f["line"]))
+    R.paths += 1
+    if seen_labels["FILE_output"] == seen_labels["ostream_output"]:
+        R.ok("both writers switch over the same format letters", "src/io.cc")
+    else:
+        f = P.find(M + "ostream_output::put")[0]
+        R.fail("both writers switch over the same format letters", "src/io.cc", Finding(R.rule, f["file"], f["q"], "format-letters", "FILE_output handles %s, ostream_output handles %s" % (sorted(seen_labels["FILE_output"]), sorted(seen_labels["ostream_output"])), f["line"]))
+    R.require_floor(7, "cases of the two format switches")
+    return R
+
+
+RULES = [rule_tokens, rule_terminal_io, rule_sections, rule_keywords, rule_code_chars, rule_domain_order, rule_format_switch]
